@@ -298,14 +298,14 @@ func (ex *Exec) callSync(g *G, f FuncV, args []Value) Value {
 	case f.Native != nil:
 		return f.Native(ex, args)
 	case f.Fn != nil:
-		if h, ok := ex.cfg.icpt[f.Fn.String()]; ok && h.Kind != "model" {
+		if h, ok := ex.cfg.icpt[ex.fnName(f.Fn)]; ok && h.Kind != "model" {
 			panic(abortf("callSync of intercepted function %s", f.Fn))
 		}
 		fn := f.Fn
-		if h, ok := ex.cfg.icpt[f.Fn.String()]; ok {
+		if h, ok := ex.cfg.icpt[ex.fnName(f.Fn)]; ok {
 			fn = h.Fn
 		}
-		if h, ok := intrinsics[fn.String()]; ok {
+		if h, ok := intrinsics[ex.fnName(fn)]; ok {
 			if r, handled := h(ex, g, fn, args); handled {
 				return r
 			}
